@@ -49,6 +49,11 @@ pub fn regimes(rng: &mut Rng, thorough: bool) -> Vec<Regime> {
             c.txs = (2, 5);
             out.push(Regime { name: "fee-burn-long", cfg: c, blocks: if thorough { 600 } else { 260 } });
         }
+        // NFT-style bound groups that are rebroadcast at the window edge
+        let mut c = HistoryCfg::basic(Params::with_gp(gp));
+        c.fee = (5_000, 60_000);
+        c.nft_permille = 400;
+        out.push(Regime { name: "nft-groups", cfg: c, blocks });
         // forks and reorganisations
         let mut c = HistoryCfg::basic(Params::with_gp(gp.max(6)));
         c.fee = (100, 40_000);
